@@ -54,6 +54,17 @@ func c04Gossip(c *Ctx) {
 			}
 			c.Check("T", fnName(fn)+"/the record "+strings.TrimPrefix(v, "ps.PRS.")+" stands for its (height, round, type)", ok, instrPos(in), len(conds), strings.Join(dc, " ; "))
 		}
+		// the decided commit's precommits are looked up before the POL record: a peer whose POL round equals the commit
+		// round must still be offered the commit, or it never leaves the height (the first matching round test answers)
+		var cu, pol *ssa.BasicBlock
+		for _, in := range findInstrs(fn, IfOn(`^\(ps\.PRS\.(CatchupCommitRound|ProposalPOLRound) == round\)$`)) {
+			if strings.Contains(pathOf(in.(*ssa.If).Cond), "CatchupCommitRound") {
+				cu = in.Block()
+			} else {
+				pol = in.Block()
+			}
+		}
+		c.Check("T", fnName(fn)+"/the catch-up commit round is tested before the POL round", cu != nil && pol != nil && cu != pol && cu.Dominates(pol), fn.Pos(), 2, "")
 		c.Check("T", fnName(fn)+"/five records (prevotes, precommits, catch-up commit, POL prevotes, last commit)", len(seen) == 5, fn.Pos(), len(seen), "")
 	}
 	// ---- marking -----------------------------------------------------------------------------------------------------------
